@@ -73,23 +73,28 @@ def builder_part(ctx, r, thorough):
 def connection_part(ctx, thorough):
     from harness import amp_scen as A
     from harness.impl_builder import BuilderTap
-    n_seeds = 80 if thorough else 20
-    stats = {"builders": 0, "builder_lines": 0, "budget_checked": 0}
+    from harness.impl_amp import AmpObserver, compare
+    n_seeds = 80 if thorough else 16
+    stats = {"builders": 0, "builder_lines": 0, "budget_checked": 0, "amp_lines": 0, "amp_sends": 0, "amp_validate": 0,
+             "amp_promote": 0, "amp_new_address": 0, "ping_with_full_window": 0}
     orc_n = {}
     runs = []
     for seed in range(n_seeds):
         for mode in ("handshake", "zero_rtt", "migration"):
             runs.append(("scenario", f"{rng.seed()}/{seed}/{mode}", mode))
-        for kind in ("client_0rtt_pto", "server_silent_client", "server_close"):
+        for kind in ("client_0rtt_pto", "server_silent_client", "server_close", "ping_full_window"):
             runs.append(("directed", f"{rng.seed()}/{seed}", kind))
     for how, seed, mode in runs:
         tap = BuilderTap()
+        amps = [AmpObserver("server"), AmpObserver("client")]
         try:
             if how == "scenario":
-                sim, orc = A.run_scenario(seed, mode, steps=140 if thorough else 90, extra=[tap])
+                sim, orc = A.run_scenario(seed, mode, steps=140 if thorough else 90, extra=[tap] + amps)
             else:
-                sim, orc = A.directed(seed, mode, extra=[tap])
+                sim, orc = A.directed(seed, mode, extra=[tap] + amps)
         finally:
+            for o in amps:
+                o.close()
             tap.close()
         sim.close_taps()
         replay = {"harness": f"amp_scen.{'run_scenario' if how == 'scenario' else 'directed'}", "seed": seed, "mode": mode,
@@ -117,6 +122,20 @@ def connection_part(ctx, thorough):
                 ctx.broken.append({"kind": "broken-correspondence", "correspondence": "caller-discipline",
                                    "error": "connection.py made a builder call outside the discipline the theorems assume",
                                    "calls": und[:3], "replay": replay})
+        # the path ledger and the budgets of every receive_datagram / datagrams_to_send call
+        for o in amps:
+            if not o.lines:
+                continue
+            bad = compare(o, lean.run_driver(o.lines))
+            stats["amp_lines"] += len(o.lines)
+            stats["amp_sends"] += o.sends
+            stats["ping_with_full_window"] += o.limited_ping_calls
+            stats["amp_validate"] += sum(l.startswith("amp.validate") for l in o.lines)
+            stats["amp_promote"] += sum(l.startswith("amp.promote") for l in o.lines)
+            stats["amp_new_address"] += sum(l.startswith("amp.rxnew") for l in o.lines)
+            if bad:
+                i, l, m, e = bad
+                ctx.disagreement("amp", {"replay": replay, "endpoint": o.role, "ops_tail": o.lines[max(0, i - 5): i + 1]}, m, e, i)
         for bm in tap.budget_mismatch[:1]:
             ctx.disagreement("datagrams_to_send-budgets", replay, str(bm["expected"]), str(bm["got"]), 0)
         ctx.cov["traces_validated_against_impl"] += 1
@@ -155,6 +174,39 @@ def main(tier):
         "like connection.py, 30% arbitrary: correspondence only). connection: handshake / 0-RTT / migration schedules under "
         "loss, duplication, reordering, junk datagrams from three addresses, client rebinding, random close(), three "
         "max_datagram_size pairs; directed: silent peer + odd-sized junk + PTO, 0-RTT with a full window, application close "
-        "with the budget used up. Non-trivial = at least one datagram produced / an unvalidated send or a padded datagram."
+        "with the budget used up, application PINGs with the window full of stream data; spoofed-source Initials (valid "
+        "Initial keys, third address), send_ping() at random. Both endpoints' path ledgers and budgets are replayed on "
+        "AQ.Model.Amplification after every receive_datagram / datagrams_to_send. Non-trivial = at least one datagram produced / an unvalidated send or a padded datagram."
     )
     return ctx.finish()
+
+
+def replay(path):
+    """re-execute a replay file against the current tree"""
+    import json
+    tree.activate()
+    d = json.load(open(path))
+    if d.get("kind") != "impl-witness":
+        print("replay names a broken obligation/correspondence, nothing to execute:", json.dumps(d.get("broken", []), default=str)[:600])
+        return 1
+    rp, sig = d["replay"], d.get("signature", {})
+    if sig.get("oracle") == "builder":
+        from harness import oracle_builder as O
+        from harness.impl_builder import BuilderImpl
+        impl = BuilderImpl()
+        out = [impl.step(l) for l in rp["ops"]]
+        v = O.check(rp["ops"], out, True)
+        p = v[1] if v else None
+    else:
+        from harness import amp_scen as A
+        fn = A.run_scenario if rp["harness"].endswith("run_scenario") else A.directed
+        sim, orc = fn(rp["seed"], rp["mode"]) if fn is A.directed else fn(rp["seed"], rp["mode"], steps=90)
+        sim.close_taps()
+        hits = [t for k, t in orc.problems if k == sig.get("kind")] or [t for _, t in orc.problems]
+        if not hits and fn is A.run_scenario:
+            sim, orc = fn(rp["seed"], rp["mode"], steps=140)      # thorough-tier length
+            sim.close_taps()
+            hits = [t for _, t in orc.problems]
+        p = hits[0] if hits else None
+    print("still failing: " + p if p else "no longer failing")
+    return 1 if p else 0
